@@ -408,6 +408,10 @@ class Project:
                 continue
             if Path(path).suffix == ".license":
                 continue
+            # A file that the version control system ignores (an editor's
+            # backup of a licence text, say) is no file of the project.
+            if self.vcs_strategy.is_ignored(path):
+                continue
 
             path = self.relative_from_root(path)
             _LOGGER.debug(
